@@ -237,7 +237,8 @@ def execute(scn):
         r5 = Rng(scn['arg_seed'])
         evs_l, strs = worlds.gen_logs(r5, 2, [900])
         wspec = {'version': 3, 'tmap': [[900, 5, 'proc', '']], 'chunks': [], 'filler1': '', 'filler2': '', 'gaps': [], 'cpu_info': {}, 'plist_fmt': 'binary',
-                 'pad_last': True, 'blocks': [{'kind': 'logs', 'payload': {'Events': evs_l}}, {'kind': 'strings', 'payload': {'StringIndex': {s_: i for i, s_ in enumerate(strs)}}}]}
+                 'pad_last': True, 'blocks': [{'kind': 'logs', 'payload': {'Events': evs_l}}, {'kind': 'strings', 'payload': {'StringIndex': {s_: i for i, s_ in enumerate(strs)}}},
+                                              {'kind': 'processes', 'payload': {'launchd': 1, 'started': {'$d': 1600000000 + r5.randrange(0, 10 ** 7)}}}]}
         recs0 = [r_ for _l, _k, _n, rr in evs[:2] for r_ in rr]
         # and a call whose path has bytes outside ASCII: paths are the kernel's bytes (UTF-8), not text in the host's encoding
         path_op = {'k': 'sys', 'name': 'BSC_open', 's': [0, 0, 0, 0], 'e': [0, 3, 0, 0],
@@ -269,10 +270,21 @@ def execute(scn):
                 trf_, e6 = common.drain(lambda: pf.formatted_traces(io.BytesIO(data3)))
                 lgf_, e7 = common.drain(lambda: pf.formatted_logs(io.BytesIO(data3)))
                 cs_, e8 = common.drain(lambda: p.formatted_callstacks(io.BytesIO(data3)))
+                # the metadata commands of the command line on that host (a processes section that carries a date)
+                import os as _os
+                import tempfile
+                from click.testing import CliRunner
+                from pykdebugparser.__main__ import cli as _cli
+                with tempfile.TemporaryDirectory() as td_:
+                    pth_ = _os.path.join(td_, 'dump')
+                    with open(pth_, 'wb') as f_:
+                        f_.write(data3)
+                    res_ = CliRunner().invoke(_cli, ['processes', pth_])
+                    cs_ = list(cs_) + ['cli processes: ' + (res_.output if res_.exception is None or isinstance(res_.exception, SystemExit) else 'raised ' + type(res_.exception).__name__)]
                 outs[h] = [logs_, kev_, tr_, trc_ + lgc_, trf_ + lgf_, cs_, [type(x).__name__ for x in (e1, e2, e3, e4, e5, e6, e7, e8) if x]]
         ref_h = hosts[0]
         for h in hosts[1:]:
-            for vi, view in enumerate(('formatted_logs', 'formatted_kevents', 'formatted_traces', 'coloured listings', 'listings under a process filter', 'formatted_callstacks')):
+            for vi, view in enumerate(('formatted_logs', 'formatted_kevents', 'formatted_traces', 'coloured listings', 'listings under a process filter', 'formatted_callstacks and the metadata command')):
                 if outs[h][vi] != outs[ref_h][vi]:
                     a = next(((x, y) for x, y in zip(outs[ref_h][vi], outs[h][vi]) if x != y), (len(outs[ref_h][vi]), len(outs[h][vi])))
                     viols.append({'tag': 'host-dependent-text', 'sig': 'environment:' + view,
